@@ -376,6 +376,67 @@ func s6() {
 	vrt.Observe("got=%d closed=%v", got, closed)
 }
 
+// S7: a self-removing filter whose queue is full receives a Call (dispatch
+// answers "consumer blocked" on the wire) || RemoveHandler / Close.
+func s7(withClose bool) func() {
+	return func() {
+		a, b := vnet.NewPair("ep", "peer")
+		ep := net.NewEndPoint(a)
+		m := &mon{name: "full", match: matchAllOnce, early: true}
+		q := make(chan *net.Message) // no room at all until the drain starts
+		gate := make(chan struct{})
+		m.drain = vrt.GoNamed("drain-full", func() {
+			<-gate
+			for msg := range q {
+				m.received = append(m.received, msg)
+			}
+			m.queueClosed = true
+			if m.closerCalls != 1 {
+				vrt.Failf("queue-closed-without-closer/"+m.name, "queue closed while closer had been called %d times", m.closerCalls)
+			}
+		})
+		m.id = ep.MakeHandler(m.filter, q, m.closer)
+		k := register(ep, "keep", matchAllKeep, true)
+		// the peer reads the error replies so that the endpoint's Send can complete
+		answers := 0
+		vrt.GoNamed("peer-reader", func() {
+			for {
+				var r net.Message
+				if r.Read(b) != nil {
+					return
+				}
+				answers++
+			}
+		})
+		vrt.Explore()
+		var rmErr error
+		w1 := vrt.GoWorker("peer", func() {
+			f := frame(8, 2)
+			f.Write(b)
+		})
+		w2 := vrt.GoWorker("remover", func() { rmErr = ep.RemoveHandler(m.id) })
+		ws := []*vrt.Thread{w1, w2}
+		if withClose {
+			ws = append(ws, vrt.GoWorker("closer", func() { ep.Close() }))
+		}
+		vrt.Quiesce()
+		close(gate)
+		vrt.Quiesce()
+		workersDone(ws...)
+		if answers > 0 {
+			vrt.Flag("consumer-blocked-answered")
+		}
+		m.check()
+		if m.closerCalls != 1 {
+			vrt.Failf("closer-count/full", "closer of the full self-removing handler invoked %d times", m.closerCalls)
+		}
+		vrt.Observe("rmErr=%v answers=%d", rmErr != nil, answers)
+		ep.Close()
+		vrt.Quiesce()
+		k.check()
+	}
+}
+
 func init() {
 	add := func(name string, body func(), q, t int, doc string, must ...string) {
 		reg.Register(&reg.Scenario{Property: "C17", Name: name, Body: body, Quick: q, Thorough: t, Doc: doc, MustFlag: must})
@@ -387,5 +448,7 @@ func init() {
 	add("s3c-peerclose-mid-payload", s3(30), 2, 4, "peer closes mid-payload || RemoveHandler || MakeHandler")
 	add("s4-double-remove", s4, 3, 99, "two concurrent RemoveHandler(h), then unknown ids")
 	add("s5-id-reuse", s5, 2, 99, "RemoveHandler || MakeHandler x2 on a full table", "id-reused")
+	add("s7a-full-queue-call-remove", s7(false), 2, 5, "self-removing filter with a full queue gets a Call (error reply on the wire) || RemoveHandler", "consumer-blocked-answered")
+	add("s7b-full-queue-call-remove-close", s7(true), 2, 4, "same || Close()", "consumer-blocked-answered")
 	add("s6-receiveany-close", s6, 2, 99, "ReceiveAny || two frames || Close()")
 }
